@@ -84,6 +84,7 @@ impl Default for BytesMut { #[verifier::external_body] fn default() -> (r: Self)
 pub trait BufSrc { spec fn content(&self) -> Seq<u8>; }
 impl BufSrc for Bytes { open spec fn content(&self) -> Seq<u8> { self@ } }
 impl BufSrc for BytesMut { open spec fn content(&self) -> Seq<u8> { self@ } }
+impl<'a> BufSrc for &'a [u8] { open spec fn content(&self) -> Seq<u8> { (*self)@ } }
 // `Buf::take(limit)` on `&mut BytesMut`: the stand-in moves the bytes out when `take` is called instead of when the
 // adaptor is drained. This is equivalent because the only consumer in the code under contract is `BufMut::put`, which
 // drains its source completely, and the borrow checker forbids observing the buffer in between.
